@@ -252,6 +252,7 @@ func runC03(c *Ctx) {
 		"C03.4 LockIndex/Session of an inserted entry come from the stored row, a constant, or (Session only) the request below a successful session lookup; LockIndex+1 only where the row is unheld; 1 only where there is no row",
 		"C03.5 every KV delete leaves a tombstone on every successful path (whole-tree delete with empty prefix excepted)",
 		"C03.6 the boolean of every lock/unlock/CAS verb reaches a branch or the result at each call site",
+		"C03.8 the KV check-and-set verbs compare the caller's index with the key's ModifyIndex for equality",
 		"C03.7 list, tree-delete and tombstone lookup address their tables through the same prefix index with the caller's prefix unmodified",
 	}
 	r.NotDecided = []string{"equivalence with a sequential reference map over operation histories", "get/list content equality"}
@@ -913,6 +914,28 @@ func checkPrefixAgreement(c *Ctx) {
 		}
 	}
 	r.Floor("C03.7", 3)
+
+	// ---- C03.8: the KV check-and-set verbs test the caller's index for equality (rule C10.8 on the KV functions)
+	for _, cs := range discoverCAS(p) {
+		touchesKV := false
+		for _, b := range cs.fn.Blocks {
+			for _, in := range b.Instrs {
+				if op := core.AsMemdbOp(in); op != nil && op.TableKnown && op.Table == "kvs" {
+					touchesKV = true
+				}
+			}
+		}
+		if !touchesKV {
+			continue
+		}
+		construct := core.FuncName(cs.fn) + "/" + cs.stored
+		if cs.cmp.Op == token.EQL || cs.cmp.Op == token.NEQ {
+			r.Hold("C03.8", construct, p.Pos(cs.cmp.Pos()), "the caller's index is tested for equality with the key's ModifyIndex")
+		} else {
+			r.Violate("C03.8", construct, p.Pos(cs.cmp.Pos()), "a KV check-and-set verb compares the caller's index with the key's ModifyIndex by '"+cs.cmp.Op.String()+"': a verb carrying an index the key never had succeeds, which the sequential model refuses")
+		}
+	}
+	r.Floor("C03.8", 3)
 }
 
 // C03.6
